@@ -124,6 +124,11 @@ func init() {
 			if i%50 == 0 && z <= 5 {
 				tile = maptile.New(uint32(i/50)%max, uint32(i/7)%max, z)
 			}
+			if i%8 == 3 { // tiles of the top and bottom row of the world at low zooms: their buffers reach beyond the world's edge
+				z = maptile.Zoom(2 + c.rng.Intn(4))
+				max = uint32(1) << uint32(z)
+				tile = maptile.New(c.rng.Uint32()%max, []uint32{0, max - 1}[c.rng.Intn(2)], z)
+			}
 			var layers mvt.Layers
 			var ins [][][2]int
 			for li := 0; li < 1+c.rng.Intn(3); li++ {
@@ -162,7 +167,14 @@ func init() {
 					fg = orb.MultiPolygon{{orb.Ring(mp[:4])}, {orb.Ring(mp[4:8]), orb.Ring(mp[8:])}}
 				}
 				fc := geojson.NewFeatureCollection()
+				// features without a geometry among the others (nothing to project, and no reason to stop projecting)
+				if c.rng.Intn(3) == 0 {
+					fc.Append(geojson.NewFeature(nil))
+				}
 				fc.Append(geojson.NewFeature(fg))
+				if c.rng.Intn(4) == 0 {
+					fc.Append(geojson.NewFeature(nil))
+				}
 				l := mvt.NewLayer("l", fc)
 				l.Extent = ext
 				layers = append(layers, l)
@@ -204,7 +216,11 @@ func init() {
 			for li, l := range layers {
 				// near the poles the mercator square ends: rows outside the world cannot come back
 				var out [][2]int
-				for _, p := range flatPoints(l.Features[0].Geometry) {
+				judged := l.Features[0]
+				if judged.Geometry == nil && len(l.Features) > 1 {
+					judged = l.Features[1]
+				}
+				for _, p := range flatPoints(judged.Geometry) {
 					out = append(out, [2]int{clipInt(p[0]), clipInt(p[1])})
 				}
 				if len(out) != len(ins[li]) { // a vertex went missing or the kind changed: leave the mismatch for the spec to see
@@ -213,12 +229,15 @@ func init() {
 					}
 					out = out[:len(ins[li])]
 				}
+				// (the projection clamps beyond +-89.19 degrees, |sin lat| > 0.9999, by design: that is 0.2881 of the world's
+				// height beyond its edge. Rows of the tile buffer up to 0.285 beyond the edge (vertices are projected as pixel centres, half a row further out) are ordinary rows and must come
+				// back - for the edge rows of zooms 2 and deeper that is the whole buffer)
 				worldRows := float64(uint64(1)<<uint32(z)) * float64(l.Extent)
-				lo, hi := -float64(tile.Y)*float64(l.Extent), worldRows-float64(tile.Y)*float64(l.Extent)
+				lo, hi := -0.285*worldRows-float64(tile.Y)*float64(l.Extent), 1.285*worldRows-float64(tile.Y)*float64(l.Extent)
 				var in2, out2 [][2]int
 				for j, p := range ins[li] {
 					if float64(p[1]) < lo || float64(p[1]) >= hi {
-						continue // outside the mercator square: clamped by design
+						continue // beyond the clamp latitude: clamped by design
 					}
 					in2, out2 = append(in2, p), append(out2, out[j])
 				}
